@@ -472,10 +472,13 @@ Section ZReads.
   Lemma zsorted_length (a : szset) : length (zsorted a) = length a.
   Proof. unfold zsorted. rewrite isort_length, map_length. reflexivity. Qed.
 
-  Lemma zrange_ref clock key rev start stop ws z a : Rep clock z -> simz z a -> zsize z <= max_batch_num ->
+  Lemma slice_length {A} a b (l : list A) : 0 <= a <= b -> b < Z.of_nat (length l) -> Z.of_nat (length (slice a b l)) = b - a + 1.
+  Proof. intros H1 H2. unfold slice. rewrite firstn_length, skipn_length. lia. Qed.
+
+  Lemma zrange_ref clock key rev start stop ws z a : Rep clock z -> simz z a ->
     MapZ.zquery key (ZQrange rev start stop ws) z = SpecZ.zquery key (ZQrange rev start stop ws) a.
   Proof.
-    intros R S Sz. pose proof R as [Rc Ri]. pose proof (sim_size compact clock (z_c z) a Rc S) as Hs. fold (zsize z) in Hs.
+    intros R S. pose proof R as [Rc Ri]. pose proof (sim_size compact clock (z_c z) a Rc S) as Hs. fold (zsize z) in Hs.
     cbn [MapZ.zquery SpecZ.zquery]. destruct (negb (key_ok key)); [reflexivity|]. unfold size_of. rewrite <- Hs.
     destruct (zexists z) eqn:X; cbn [negb].
     2:{ apply (simz_nil_iff compact clock z a R S) in X. subst a. cbn [length] in Hs. rewrite Hs.
@@ -485,22 +488,24 @@ Section ZReads.
     pose proof (zparse_rank (zsize z) start stop ltac:(pose proof (st_size_nonneg compact clock (z_c z) Rc); unfold zsize; lia)) as ZP.
     destruct (rank_range (zsize z) start stop) as [[ra rb]|].
     - destruct ZP as (E & B1 & B2). rewrite E. unfold zrange_bytes.
-      assert (ra <? 0 = false) as -> by lia. assert (max_batch_num <? rb - ra + 1 = false) as -> by lia.
+      assert (ra <? 0 = false) as -> by lia.
       assert (rb - ra + 1 <? 0 = false) as -> by lia. cbn [andb].
       rewrite filter_all by reflexivity. rewrite (index_scan_sorted compact clock z a R S).
       assert (LZ : Z.of_nat (length (zsorted a)) = zsize z) by (rewrite zsorted_length; lia).
-      assert (max_batch_num <? Z.of_nat (length (slice ra rb (if rev then List.rev (zsorted a) else zsorted a))) = false) as ->.
-      { unfold slice. rewrite firstn_length, skipn_length. destruct rev; rewrite ?rev_length; lia. }
-      destruct rev.
+      set (L := if rev then List.rev (zsorted a) else zsorted a).
+      assert (LL : Z.of_nat (length L) = zsize z) by (unfold L; destruct rev; rewrite ?rev_length; exact LZ).
+      rewrite (slice_length ra rb L) by lia.
+      destruct (max_batch_num <? rb - ra + 1); [reflexivity|].
+      unfold L. destruct rev.
       + rewrite limit_slice by (rewrite ?rev_length; lia). reflexivity.
       + rewrite limit_slice by lia. reflexivity.
     - rewrite ZP. unfold zrange_bytes. reflexivity.
   Qed.
 
-  Lemma zrangebyscore_ref clock key rev lo hi ws offset count z a : Rep clock z -> simz z a -> zsize z <= max_batch_num ->
+  Lemma zrangebyscore_ref clock key rev lo hi ws offset count z a : Rep clock z -> simz z a ->
     MapZ.zquery key (ZQrangebyscore rev lo hi ws offset count) z = SpecZ.zquery key (ZQrangebyscore rev lo hi ws offset count) a.
   Proof.
-    intros R S Sz. pose proof R as [Rc Ri]. pose proof (sim_size compact clock (z_c z) a Rc S) as Hs. fold (zsize z) in Hs.
+    intros R S. pose proof R as [Rc Ri]. pose proof (sim_size compact clock (z_c z) a Rc S) as Hs. fold (zsize z) in Hs.
     cbn [MapZ.zquery SpecZ.zquery]. destruct (negb (key_ok key)); [reflexivity|].
     destruct (zexists z) eqn:X; cbn [negb].
     2:{ apply (simz_nil_iff compact clock z a R S) in X. subst a. reflexivity. }
@@ -510,23 +515,30 @@ Section ZReads.
     destruct (max_batch_num <? count) eqn:C1; [reflexivity|].
     rewrite (index_scan_sorted compact clock z a R S).
     set (l := filter (fun e : score * bytes => in_score lo hi (fst e)) (zsorted a)).
-    assert (LL : (length l <= length a)%nat) by (unfold l; etransitivity; [apply filter_length_le|rewrite zsorted_length; lia]).
-    assert (P1 : (count <? 0) && (score_eqb (fst lo) SNInf && negb (snd lo) && score_eqb (fst hi) SPInf && negb (snd hi)) && (max_batch_num <? zsize z - offset) = false).
-    { assert (max_batch_num <? zsize z - offset = false) as -> by lia. apply andb_false_r. }
-    rewrite P1.
-    assert (LEN : forall l0 : list (score * bytes), (length l0 <= length a)%nat -> (count <? 0) && (max_batch_num <? Z.of_nat (length (limit offset count l0))) = false).
-    { intros l0 H0. pose proof (limit_length_le offset count l0).
-      assert (max_batch_num <? Z.of_nat (length (limit offset count l0)) = false) as -> by lia. apply andb_false_r. }
-    destruct rev.
-    - change (take_limit offset count (List.rev l)) with (limit offset count (List.rev l)).
-      rewrite (LEN (List.rev l)) by (rewrite rev_length; exact LL). reflexivity.
-    - change (take_limit offset count l) with (limit offset count l). rewrite (LEN l LL). reflexivity.
+    set (L := if rev then List.rev l else l).
+    assert (EL : (if rev then limit offset count (List.rev l) else limit offset count l) = limit offset count L) by (unfold L; destruct rev; reflexivity).
+    rewrite EL.
+    change (take_limit offset count L) with (limit offset count L).
+    destruct ((count <? 0) && (score_eqb (fst lo) SNInf && negb (snd lo) && score_eqb (fst hi) SPInf && negb (snd hi)) && (max_batch_num <? zsize z - offset)) eqn:P1.
+    - (* the pre-check of the full range fires: the result would be too long anyway *)
+      apply andb_true_iff in P1. destruct P1 as [P1 P3]. apply andb_true_iff in P1. destruct P1 as [Cn Pre].
+      assert (ALL : l = zsorted a).
+      { unfold l. apply filter_all. intros [s m] _. cbn [fst]. unfold in_score.
+        repeat (apply andb_true_iff in Pre; destruct Pre as [Pre ?]).
+        apply score_eqb_eq in Pre. apply score_eqb_eq in H0. destruct lo as [lo1 lo2], hi as [hi1 hi2]. cbn [fst snd] in *. subst.
+        apply negb_true_iff in H, H1. subst. cbn. destruct s; reflexivity. }
+      assert (LenL : Z.of_nat (length L) = zsize z).
+      { unfold L. destruct rev; rewrite ?rev_length, ALL, zsorted_length; lia. }
+      assert (LenLim : Z.of_nat (length (limit offset count L)) = Z.of_nat (length L) - Z.min offset (Z.of_nat (length L))).
+      { unfold limit. rewrite O, Cn. rewrite skipn_length. unfold clampn. lia. }
+      rewrite Cn. cbn [andb]. assert (max_batch_num <? Z.of_nat (length (limit offset count L)) = true) as -> by lia. reflexivity.
+    - destruct ((count <? 0) && (max_batch_num <? Z.of_nat (length (limit offset count L)))); reflexivity.
   Qed.
 
-  Lemma zrangebylex_ref clock key lo hi lopen ropen offset count z a : Rep clock z -> simz z a -> zsize z <= max_batch_num ->
+  Lemma zrangebylex_ref clock key lo hi lopen ropen offset count z a : Rep clock z -> simz z a ->
     MapZ.zquery key (ZQrangebylex lo hi lopen ropen offset count) z = SpecZ.zquery key (ZQrangebylex lo hi lopen ropen offset count) a.
   Proof.
-    intros R S Sz. pose proof R as [Rc Ri]. pose proof (sim_size compact clock (z_c z) a Rc S) as Hs. fold (zsize z) in Hs.
+    intros R S. pose proof R as [Rc Ri]. pose proof (sim_size compact clock (z_c z) a Rc S) as Hs. fold (zsize z) in Hs.
     cbn [MapZ.zquery SpecZ.zquery]. destruct (max_batch_num <? count) eqn:C1; [reflexivity|]. destruct (negb (key_ok key)); [reflexivity|].
     rewrite (scan_members compact clock z a R S).
     destruct (zexists z) eqn:X; cbn [negb].
@@ -567,10 +579,10 @@ Section ZReads.
     intros H P. unfold slice. cbn [Z.to_nat skipn]. apply firstn_all2. lia.
   Qed.
 
-  Lemma zremrangebyrank_ref clock ts key start stop z a : Rep clock z -> simz z a -> zsize z <= max_batch_num ->
+  Lemma zremrangebyrank_ref clock ts key start stop z a : Rep clock z -> simz z a ->
     zref (MapZ.zstep compact ts key (ZCremrangebyrank start stop)) (SpecZ.zstep key (ZCremrangebyrank start stop)) z a.
   Proof.
-    intros R S Sz. unfold zref. cbn [MapZ.zstep SpecZ.zstep]. pose proof R as [Rc Ri].
+    intros R S. unfold zref. cbn [MapZ.zstep SpecZ.zstep]. pose proof R as [Rc Ri].
     destruct (negb (key_ok key)); [split; [reflexivity|exact S]|].
     pose proof (sim_size compact clock (z_c z) a Rc S) as Hs. fold (zsize z) in Hs. unfold size_of. rewrite <- Hs.
     assert (NDa : NoDup (map fst a)) by (destruct S as (_ & N & _); exact N).
@@ -584,6 +596,7 @@ Section ZReads.
       destruct ((ra =? 0) && (zsize z <=? rb - ra + 1)) eqn:ALL.
       + (* everything *)
         assert (ra = 0 /\ rb = zsize z - 1) as [-> ->] by lia.
+        assert ((max_batch_num <? zsize z - 1 - 0 + 1) && (zsize z - 1 - 0 + 1 <? zsize z) = false) as -> by lia.
         rewrite (slice_all (zsorted a) (zsize z) LZ) by lia.
         destruct (zrem_all_ref compact clock z a R S) as [S' C'].
         assert (MS : forall k, In k (map snd (zsorted a)) <-> In k (map fst a)).
@@ -594,7 +607,8 @@ Section ZReads.
         unfold remove_members. destruct (zrem_all compact z) as [z' n]. destruct (del_loop (map snd (zsorted a)) a) as [h k]. cbn [fst snd] in *.
         split; [f_equal; rewrite C'; symmetry; apply D2; [exact NDs|intros x Hx; apply MS; exact Hx]|].
         unfold simz in *. eapply meq_trans; [exact S'|apply meq_sym; exact D1].
-      + assert (max_batch_num <? rb - ra + 1 = false) as -> by lia.
+      + assert (rb - ra + 1 <? zsize z = true) as -> by lia. rewrite andb_true_r.
+        destruct (max_batch_num <? rb - ra + 1); [split; [reflexivity|exact S]|].
         rewrite filter_all by reflexivity. rewrite (index_scan_sorted compact clock z a R S).
         rewrite limit_slice by lia.
         assert (NDm : NoDup (map snd (slice ra rb (zsorted a)))).
